@@ -54,6 +54,13 @@ for pid in sorted(P):
         "level_note": TB + note,
         "technique": TECH,
     })
+m["hooks"] = {
+    "guard": "verif",
+    "enable": "go build -tags verif (harness/cmd/run is built with the tag; spdxexp/verif_hooks.go exposes scan tokens, the parse tree and the expansion; if the hook file does not compile against the tree under check the harness is rebuilt without the tag and only the hook-based correspondences are skipped)",
+    "baseline_off_cmd": "cd /repo && go test -vet=off -count=1 ./...",
+    "source_commits": ["1496e06"],
+    "add_only": True,
+}
 m["checks"] = checks
 m["not_applicable"] = []
 m["notes"] = ("All 15 properties are claimed. C13 and C14 are partial by nature (runtime behaviour outside Lean), C03 partial for the stages behind the parser; "
